@@ -117,8 +117,8 @@ def fixed_exact(v: float) -> str:
 
 
 def fmt_coord_v3000(v: float, rng: random.Random | None, exotic=False) -> str:
-    """A fixed-point decimal spelling t of v with float(t) == v exactly (no exponent notation, no leading '+': the format
-    specification describes coordinates as plain decimal numbers)."""
+    """A decimal spelling t of v with float(t) == v exactly: fixed-point by default (no leading '+'); with exotic=True also the exponent form
+    that C's printf %e / %E (and Python's repr, as in the corpus file C180.mol: -3.06433e-07) produce: mantissa, e or E, sign, two digits."""
     v = float(v)
     base = fixed_exact(v)
     cands = [base]
@@ -140,8 +140,7 @@ def fmt_coord_v3000(v: float, rng: random.Random | None, exotic=False) -> str:
             m, x = e.split("e")
             m = m.rstrip("0").rstrip(".") if "." in m else m
             cands.append(f"{m}e{int(x):+03d}")
-            cands.append(f"{m}E{int(x):+03d}")  # C/Fortran/Java writers print the marker in upper case
-            cands.append(f"{m}e{int(x)}")
+            cands.append(f"{m}E{int(x):+03d}")  # printf %E / Fortran writers print the marker in upper case
     if rng is None:
         return cands[0]
     return rng.choice(cands)
@@ -152,7 +151,7 @@ def fmt_coord_v3000(v: float, rng: random.Random | None, exotic=False) -> str:
 
 ATOM_EXTRA_KEYWORDS = [
     "CFG=1", "CFG=2", "VAL=3", "VAL=-1", "HCOUNT=2", "STBOX=1", "INVRET=1", "EXACHG=1", "SUBST=2",
-    "UNSAT=1", "RBCNT=3", "ATTCHPT=1", "ATTCHPT=-1", "RGROUPS=(2 1 2)", "ATTCHORD=(2 1 Al)", "CLASS=AA", "SEQID=7",
+    "UNSAT=1", "RBCNT=3", "ATTCHPT=1", "ATTCHPT=-1", "ATTCHORD=(2 @NBR Al)", "CLASS=AA", "SEQID=7",
 ]
 BOND_EXTRA_KEYWORDS = ["CFG=1", "CFG=3", "TOPO=1", "TOPO=2", "RXCTR=4", "STBOX=1", "DISP=COORD"]
 
@@ -307,10 +306,10 @@ def render_v3000(mol: Mol, style: V3Style | None = None, rng: random.Random | No
             obs["multi_star_files"] = obs.get("multi_star_files", 0) + 1
 
     lines = []
-    header = style.header or [mol.name or "", "  rvharness", ""]
+    header = style.header or [mol.name or "", "  rvharnes", ""]
     lines.extend(header[:3])
-    lines.append(rng.choice(["  0  0  0     0  0            999 V3000", "  0  0  0  0  0  0  0  0  0  0999 V3000", "  0  0  0     1  0            999 V3000",
-                             "  0  0        0               999 V3000"]) if style.counts_extra else "  0  0  0     0  0            999 V3000")
+    lines.append(rng.choice(["  0  0  0     0  0            999 V3000", "  0  0  0  0  0  0  0  0  0  0999 V3000"]) if style.counts_extra
+                 else "  0  0  0     0  0            999 V3000")
     logical = []  # (kind, content)
     logical.append(("frame", "BEGIN CTAB"))
     n_atom_lines = n + len(star_bonds)
@@ -355,6 +354,11 @@ def render_v3000(mol: Mol, style: V3Style | None = None, rng: random.Random | No
             if key in used_keys:
                 continue
             if rng.random() < style.extra_atom_kw / 4:
+                if "@NBR" in kw:  # a parenthesised value with blanks; the neighbour it names must exist
+                    nbrs = [j if i == pos else i for i, j, _ in mol.bonds if pos in (i, j)]
+                    if not nbrs:
+                        continue
+                    kw = kw.replace("@NBR", str(index_map[nbrs[0]]))
                 used_keys.add(key)
                 kws.append(kw)
                 obs.setdefault("extra_kw", {})
@@ -399,7 +403,7 @@ def render_v3000(mol: Mol, style: V3Style | None = None, rng: random.Random | No
                 obs["star_second"] = obs.get("star_second", 0) + 1
             else:
                 obs["star_first"] = obs.get("star_first", 0) + 1
-            toks = [str(bidx + 1000 if style.bond_index_map else bidx), str(t)] + pair
+            toks = [str(max(style.bond_index_map) + bidx + 1 if style.bond_index_map else bidx), str(t)] + pair
             tail = [endpts, rng.choice(["ATTACH=ANY", "ATTACH=ALL"])]
             if rng.random() < 0.3:
                 tail.append("CFG=1")
@@ -411,9 +415,15 @@ def render_v3000(mol: Mol, style: V3Style | None = None, rng: random.Random | No
         logical.extend(blines)
         logical.append(("frame", "END BOND"))
     if style.trailing_blocks and len(mol.bonds) >= 2 and rng.random() < 0.5:
-        i, j, _ = mol.bonds[0]
-        logical.append(("frame", f"LINKNODE 1 3 2 {index_map[i]} {index_map[j]} {index_map[i]} {index_map[j]}"))
-        obs["linknode_lines"] = obs.get("linknode_lines", 0) + 1
+        nb = {}
+        for i, j, _ in mol.bonds:
+            nb.setdefault(i, []).append(j)
+            nb.setdefault(j, []).append(i)
+        centres = [c for c in sorted(nb) if len(nb[c]) >= 2]
+        if centres:
+            c = centres[0]
+            logical.append(("frame", f"LINKNODE 1 3 2 {index_map[c]} {index_map[nb[c][0]]} {index_map[c]} {index_map[nb[c][1]]}"))
+            obs["linknode_lines"] = obs.get("linknode_lines", 0) + 1
     if style.trailing_blocks:
         logical.append(("frame", "BEGIN SGROUP"))
         label = rng.choice(["X", "5'-P", "Ph", "\"tert-butyl group\"", "N(Me)2", "3'-OH", "a\\b"])
@@ -431,7 +441,7 @@ def render_v3000(mol: Mol, style: V3Style | None = None, rng: random.Random | No
         lines.extend(_split_logical(content, rng, style, kind, obs))
     lines.append("M  END")
     text = join_lines(lines, style.eol, rng)
-    e = "\n" if style.eol == "mixed" else style.eol
+    e = "\n" if style.eol in ("mixed", "mixed-cr") else style.eol
     if style.after_end:
         text += e + style.after_end.replace("\n", e)
     if style.final_eol:
@@ -440,15 +450,16 @@ def render_v3000(mol: Mol, style: V3Style | None = None, rng: random.Random | No
 
 
 def join_lines(lines, eol, rng):
-    """eol: a terminator string, or 'mixed' = every line gets its own terminator (a file edited on several systems)."""
-    if eol != "mixed":
+    """eol: a terminator string, or 'mixed' = every line gets its own terminator, LF or CRLF (a file edited on several systems);
+    'mixed-cr' additionally uses bare CR (only the line-ending-style dimension of C06 asks for it)."""
+    if eol not in ("mixed", "mixed-cr"):
         return eol.join(lines)
     out = []
     for k, l in enumerate(lines):
         out.append(l)
         if k < len(lines) - 1:
             # a bare CR directly followed by an EMPTY line ended by LF would read as one CRLF: never generate that ambiguity
-            choices = ["\n", "\r\n", "\r\n"] + ([] if lines[k + 1] == "" else ["\r"])
+            choices = ["\n", "\r\n", "\r\n"] + ([] if (lines[k + 1] == "" or eol == "mixed") else ["\r"])
             out.append(rng.choice(choices))
     return "".join(out)
 
@@ -525,24 +536,26 @@ def _prop_lines(tag, entries, per_line, rng, shuffle):
     return out
 
 
-UNRELATED_V2000 = [
-    ["M  STY  1   1 SUP", "M  SAL   1  1   1", "M  SMT   1 Ph"], ["M  STY  1   1 GEN"],
-    ["A    1", "R-group alias"], ["V    1 some atom value"], ["G    1  1", "Et"], ["M  ALS   1  2 F C   N   "],
-    ["M  RGP  1   1   1"], ["S  SKP  1", "skipped line M  ISO"], ["M  LIN  1   1   1   1   2"], ["M  SUB  1   1   2"],
+UNRELATED_V2000 = [  # each record at most once per file; atom references exist in every molecule (atom 1)
+    ["M  STY  1   1 SUP", "M  SAL   1  1   1", "M  SMT   1 Ph"], ["M  STY  1   2 GEN"],
+    ["A    1", "R-group alias"], ["V    1 some atom value"], ["M  ALS   1  2 F C   N   "],
+    ["S  SKP  1", "skipped line M  ISO"], ["M  SUB  1   1   2"],
     ["M  UNS  1   1   1"], ["M  RBC  1   1   2"],
 ]
 
 
-def two_line_records(n_atoms, rng):
+def two_line_records(n_atoms, rng, bonded=None):
     """Records whose FOLLOW-UP line is free text (atom alias 'A  aaa', group abbreviation 'G  aaappp') or is to be skipped ('S  SKPnnn'),
     spelled so that the text LOOKS like a property line. A reader must not interpret it."""
     a = rng.randint(1, n_atoms)
+    bonded = bonded or []
     fake = rng.choice([f"M  CHG  1 {a:3d}   1", f"M  RAD  1 {a:3d}   2", f"M  ISO  1 {a:3d}  14", f"M  ISO  2 {a:3d}  13 {rng.randint(1, n_atoms):3d}   2"])
-    kind = rng.choice(["alias", "group", "skip1", "skip2"])
+    kind = rng.choice(["alias", "group", "skip1", "skip2"] if bonded else ["alias", "skip1", "skip2"])
     if kind == "alias":
         return [f"A  {a:3d}", fake]
-    if kind == "group":
-        return [f"G  {a:3d}{a:3d}", fake]
+    if kind == "group":  # aaa = an atom of the abbreviated group, ppp = the atom it is bonded to
+        i, j = rng.choice(bonded)
+        return [f"G  {i + 1:3d}{j + 1:3d}", fake]
     if kind == "skip1":
         return ["S  SKP  1", fake]
     return ["S  SKP  2", fake, f"M  CHG  1 {rng.randint(1, n_atoms):3d}  -1"]
@@ -560,7 +573,7 @@ def render_v2000(mol: Mol, style: V2Style | None = None, rng: random.Random | No
         enc = "lines"  # nothing would supersede the stale codes
     obs.setdefault("encoding", {})
     obs["encoding"][enc] = obs["encoding"].get(enc, 0) + 1
-    lines = list((style.header or [mol.name or "", "  rvharness", ""])[:3])
+    lines = list((style.header or [mol.name or "", "  rvharnes", ""])[:3])
     # aaabbblllfffcccsssxxxrrrpppiiimmmvvvvvv : fff obsolete, ccc chiral flag (0/1), sss..iii obsolete (kept 0), mmm = 999
     chiral = rng.choice([0, 1]) if style.counts_noise else 0
     if chiral:
@@ -606,10 +619,10 @@ def render_v2000(mol: Mol, style: V2Style | None = None, rng: random.Random | No
         sss = rng.randint(0, 3) if style.stereo_fields else 0
         hhh = rng.randint(0, 4) if style.stereo_fields else 0
         vvv = rng.choice([0, 0, 1, 15]) if style.stereo_fields else 0
-        mmm, nnn, eee = (rng.randint(0, 12), rng.choice([0, 1, 2]), rng.choice([0, 1])) if style.stereo_fields else (0, 0, 0)
+        mmm, nnn, eee = (rng.randint(0, n), rng.choice([0, 1, 2]), rng.choice([0, 1])) if style.stereo_fields else (0, 0, 0)
         lines.append(f"{a.x:10.4f}{a.y:10.4f}{a.z:10.4f} {sym:<3s} 0{code:3d}{sss:3d}{hhh:3d}  0{vvv:3d}  0  0  0{mmm:3d}{nnn:3d}{eee:3d}")
     for i, j, t in mol.bonds:
-        st = rng.choice([0, 1, 4, 6]) if style.stereo_fields else 0
+        st = (rng.choice([0, 1, 4, 6]) if t == 1 else rng.choice([0, 3]) if t == 2 else 0) if style.stereo_fields else 0
         rrr, ccc = (rng.choice([0, 1, 2]), rng.choice([0, -1, 1, 4, 8])) if style.stereo_fields else (0, 0)
         lines.append(f"{i + 1:3d}{j + 1:3d}{t:3d}{st:3d}  0{rrr:3d}{ccc:3d}")
     for k in range(style.atom_lists):
@@ -646,12 +659,13 @@ def render_v2000(mol: Mol, style: V2Style | None = None, rng: random.Random | No
     # records are kept as units (a record may span two or three physical lines), extra records go BETWEEN them
     records = [[l] for l in prop]
     if style.unrelated > 0:
-        out = []
+        out, used_unrelated = [], set()
         for rec in records + [None]:
             while rng.random() < style.unrelated:
                 u = rng.choice(UNRELATED_V2000)
-                if u[0].startswith("M  SAL") and not mol.bonds:
+                if u[0] in used_unrelated or (u[0].startswith("M  ALS") and not style.atom_lists):
                     continue
+                used_unrelated.add(u[0])
                 out.append(list(u))
                 obs.setdefault("unrelated", {})
                 obs["unrelated"][u[0][:6]] = obs["unrelated"].get(u[0][:6], 0) + 1
@@ -662,7 +676,7 @@ def render_v2000(mol: Mol, style: V2Style | None = None, rng: random.Random | No
         out = []
         for rec in records + [None]:
             if rng.random() < style.two_line_records:
-                out.append(two_line_records(n, rng))
+                out.append(two_line_records(n, rng, [(i, j) for i, j, _ in mol.bonds]))
                 obs["two_line_records_with_property_like_text"] = obs.get("two_line_records_with_property_like_text", 0) + 1
             if rec is not None:
                 out.append(rec)
@@ -671,7 +685,7 @@ def render_v2000(mol: Mol, style: V2Style | None = None, rng: random.Random | No
     lines.extend(prop)
     lines.append("M  END")
     text = join_lines(lines, style.eol, rng)
-    e = "\n" if style.eol == "mixed" else style.eol
+    e = "\n" if style.eol in ("mixed", "mixed-cr") else style.eol
     if style.after_end:
         text += e + style.after_end.replace("\n", e)
     if style.final_eol:
